@@ -138,7 +138,7 @@ def main(argv):
     else:
         n = 1200 if ck.tier == "quick" else 20000
         hs = CORPUS + [gen_history(ck.rng, ck.tier == "thorough") for _ in range(n)]
-    ck.correspond(hb, db, hs, label="jsonpath", ubsan_is_violation=r"types/json\.|types/primitive\.|utils/lex\.",
+    ck.correspond(hb, db, hs, label="jsonpath", ubsan_is_violation=r"types/json\.|utils/lex\.",
                   nontrivial=lambda h, obs: any(o == "ok" for o in obs))
     c = ck.cov["counters"]
     for name in ("w", "wt", "touch", "rc", "get", "has", "rm", "set", "setat", "merge", "mergeat", "plus"):
